@@ -50,6 +50,9 @@ def covered : List (Site × Cover) :=
    (("ssdp:SsdpProtocol.datagram_received", "assert self.transport", "-"), .safe "transport / socket is set before any datagram can arrive (connection_made / async_start)"),
    (("ssdp:SsdpProtocol.datagram_received", "unpack decode_ssdp_packet(data, self.lo", "BadHttpMessage,UnicodeDecodeError"), .safe "the callee returns a tuple of fixed arity"),
    (("search:SsdpSearchListener._on_data", "['_host']", "-"), .model Exn.keyError "unreachable: _host is always present (host_present)"),
+   (("ssdp_listener:is_usable_location", "urlparse(", "ValueError"), .caught "ValueError handler in the function: an unparsable location is not usable (C03: Parse.locUsable)"),
+   (("ssdp_listener:is_usable_location", ".hostname", "ValueError"), .safe "ParseResult.hostname does not raise (and sits under the same handler)"),
+   (("ssdp_listener:is_usable_location", "ip_address(", "ValueError"), .caught "ValueError handler in the function: not an address literal = a host name, usable"),
    (("ssdp_listener:extract_uncache_after", "timedelta(", "OverflowError,ValueError"), .model Exn.timedeltaOverflow "OverflowError handler in the function (tdGuard)"),
    (("ssdp_listener:extract_uncache_after", "int(", "OverflowError,ValueError"), .model Exn.intDigitsLimit "ValueError handler in the function (intGuard)"),
    (("ssdp_listener:extract_uncache_after", "[1]", "OverflowError,ValueError"), .safe "group 1 exists whenever the pattern matched"),
